@@ -137,6 +137,15 @@ Proof.
   exact (built_wire_ok i s r (Bridge.cfg_bridge i (Hwf i Hin) Hm Hc) Hs Hsys Hclk Hb).
 Qed.
 
+(* known finding 3 (lla_not_6_bytes): the reference-shaped configuration on an interface whose hardware address has 8
+   bytes (IEEE 1394 / EUI-64; InfiniBand has 20): RA generation succeeds, the encoder refuses the RA *)
+Definition ex_sys_eui64 : sys :=
+  mkSys (s_addrs ex_sys) (s_routes ex_sys) (Some [1; 2; 3; 4; 5; 6; 7; 8]%N) (s_now ex_sys) (s_epoch ex_sys) (s_fwd ex_sys).
+Theorem C03_lla_refuted :
+  cfg_ok ex_iface = true /\ sizes_ok ex_iface = true /\ clock_okb ex_iface ex_sys_eui64 = true /\
+  match build ex_iface ex_sys_eui64 with Ok r => encode r = Err E_ENC | Err _ => False end.
+Proof. split; [|split; [|split]]; vm_compute; reflexivity. Qed.
+
 Print Assumptions C03_wire_ok.
 Print Assumptions C03_wire_ok_meaning.
 Print Assumptions codec_roundtrip.
@@ -148,3 +157,4 @@ Print Assumptions C03_roundup_refuted.
 Print Assumptions C03_oversize_refuted.
 Print Assumptions C03_full_refuted.
 Print Assumptions C03_accepted.
+Print Assumptions C03_lla_refuted.
